@@ -1,0 +1,49 @@
+//go:build verif
+
+// Package verifhook provides observation and fault-injection points for the
+// verification harness. It is only active when built with the `verif` tag;
+// without the tag every function is an empty inlinable stub (hook_off.go).
+package verifhook
+
+import "sync/atomic"
+
+// Sink receives every Point call when installed. Installed by the harness only.
+var sink atomic.Value // func(point string, kv ...any)
+
+// FaultFn decides whether a fault point fails. Installed by the harness only.
+var faultFn atomic.Value // func(point string) error
+
+// SetSink installs (or, with nil, removes) the observer of Point calls.
+func SetSink(f func(point string, kv ...any)) {
+	if f == nil {
+		f = func(string, ...any) {}
+	}
+	sink.Store(f)
+}
+
+// SetFault installs (or, with nil, removes) the fault decision function.
+func SetFault(f func(point string) error) {
+	if f == nil {
+		f = func(string) error { return nil }
+	}
+	faultFn.Store(f)
+}
+
+// Point reports that execution reached a named point. The sink may block,
+// which lets the harness use a point as a scheduling gate.
+func Point(point string, kv ...any) {
+	if f, ok := sink.Load().(func(string, ...any)); ok && f != nil {
+		f(point, kv...)
+	}
+}
+
+// Fault returns an injected error for a named fault point, or nil.
+func Fault(point string) error {
+	if f, ok := faultFn.Load().(func(string) error); ok && f != nil {
+		return f(point)
+	}
+	return nil
+}
+
+// Enabled reports whether the hooks are compiled in.
+const Enabled = true
